@@ -156,7 +156,7 @@ class C02(HistoryProperty):
             spec["roots"] = spec["roots"] + [f"u{k0 + 1}", f"u{k0 + 4}"]
             shared_leaf = (f"u{k0 + 1}", f"u{k0 + 4}")
         dg = U.DictGen(rng, cfg, no_list_keys=gen.hashable_required_keys(spec))
-        dg.MUTATIONS = ["repeat"] * 4 + ["never"] * 3 + ["permute"] * 3 + ["change", "change", "delete", "add", "sibling", "fresh", "template"]
+        dg.MUTATIONS = ["repeat"] * 4 + ["never"] * 3 + ["permute"] * 3 + ["change", "change", "delete", "add", "sibling", "fresh", "template", "rows", "rows"]
         ops = gen_history(rng, cfg, spec, dictgen=dg)
         if shared_leaf:
             o = dict(rng.choice(ops)["o"], M="a", A=rng.choice([1, 2]))
